@@ -166,6 +166,10 @@ static long max_strings_per_rule = DEFAULT_MAX_STRINGS_PER_RULE;
 static long max_process_memory_chunk = DEFAULT_MAX_PROCESS_MEMORY_CHUNK;
 static long long skip_larger = 0;
 
+// Set (under output_mutex) by a scanning thread when a file could not be
+// scanned; read by main() after the threads were joined.
+static bool scan_errors = false;
+
 #define USAGE_STRING \
   "Usage: yara [OPTION]... [NAMESPACE:]RULES_FILE... FILE | DIR | PID"
 
@@ -1326,6 +1330,7 @@ static void* scanning_thread(void* param)
         cli_mutex_lock(&output_mutex);
         _ftprintf(stderr, _T("error scanning %s: "), file_path);
         print_scanner_error(args->scanner, result);
+        scan_errors = true;
         cli_mutex_unlock(&output_mutex);
       }
 
@@ -1655,7 +1660,7 @@ int _tmain(int argc, const char_t** argv)
 
     if (arg_is_dir)
     {
-      scan_dir(argv[argc - 1], &scan_opts);
+      result = scan_dir(argv[argc - 1], &scan_opts);
     }
     else
     {
@@ -1672,7 +1677,10 @@ int _tmain(int argc, const char_t** argv)
 
     file_queue_destroy();
 
-    if (result != ERROR_SUCCESS)
+    if (result == ERROR_SCAN_TIMEOUT)
+      print_error(result);
+
+    if (result != ERROR_SUCCESS || scan_errors)
       exit_with_code(EXIT_FAILURE);
   }
   else
